@@ -91,11 +91,10 @@ Section Tie.
     destruct (Z.of_nat (length (sw_prune (now - nanos O ws) log)) <? n); cbn; repeat split; reflexivity.
   Qed.
 
-  (** [time_until_available]; the model's [-1] marks the IndexError the code
-      raises on an empty log with [max_requests <= 0] (the translation reads
-      [l[0]] through [py_hd]); excluded by [0 < max_requests]. *)
+  (** [time_until_available]: reading [self._request_log[0]] raises IndexError on an empty log
+      (only possible with [max_requests <= 0]): the translation returns [None] there, the model [-1]. *)
   Lemma tie_sw_tua s now : 0 < SlidingWindowPolicy__max_requests O s ->
-    let r := SlidingWindowPolicy_time_until_available O s now in
+    exists r, SlidingWindowPolicy_time_until_available O s now = Some r /\
     (SlidingWindowPolicy__request_log O (fst r), snd r)
       = sw_tua O (sw_wn s) (SlidingWindowPolicy__max_requests O s) (SlidingWindowPolicy__request_log O s) now
     /\ sw_wn (fst r) = sw_wn s
@@ -103,9 +102,9 @@ Section Tie.
   Proof.
     unfold SlidingWindowPolicy_time_until_available, SlidingWindowPolicy__prune, sw_tua, sw_wn, guard.
     destruct s as [ws n log]; cbn. intros Hn. rewrite dropwhile_prune.
-    destruct (Z.of_nat (length (sw_prune (now - nanos O ws) log)) <? n) eqn:E; cbn; [repeat split; reflexivity|].
+    destruct (Z.of_nat (length (sw_prune (now - nanos O ws) log)) <? n) eqn:E; cbn; [eexists; repeat split; reflexivity|].
     destruct (sw_prune (now - nanos O ws) log) as [|oldest rest] eqn:El; cbn in *; [lia|].
-    destruct (nanos O (secs O (oldest + nanos O ws - now)) =? 0); repeat split; reflexivity.
+    destruct (nanos O (secs O (oldest + nanos O ws - now)) =? 0); eexists; repeat split; reflexivity.
   Qed.
 
   (* ---------------------------------------------------------------- *)
